@@ -11,7 +11,7 @@ from ref import pkgwriter, selref
 B4 = ['B1', 'B2', 'B3', 'B5']
 
 
-def build(d, tag, fmt, n_models, perm=None, n_cols=2, nan_col=False, seed=0, mode='2d', text_col=False, par_gz=False, name_pos=0):
+def build(d, tag, fmt, n_models, perm=None, n_cols=2, nan_col=False, seed=0, mode='2d', text_col=False, par_gz=False, name_pos=0, extreme=False):
     """Package whose convolved files and parameter table are both in `perm` order.  Returns (model_dir, info dict)."""
     names = ['pm_%s' % 'kcxaqfzb'[i] for i in range(n_models)]
     perm = list(range(n_models)) if perm is None else list(perm)
@@ -22,6 +22,10 @@ def build(d, tag, fmt, n_models, perm=None, n_cols=2, nan_col=False, seed=0, mod
         if nan_col and c == n_cols - 1 and n_models > 1:
             v[1] = np.nan
         cols['PAR%d' % (c + 1)] = v
+    if extreme:
+        # magnitudes a cgs luminosity or a dust mass fraction can have: beyond the range of single precision on both sides
+        cols['PAR%d' % (n_cols + 1)] = np.array([(3.3e40 * (m + 1)) if m % 2 == 0 else (-2.2e-50 * (m + 1)) for m in range(n_models)])
+        n_cols += 1
     md = os.path.join(d, tag)
     os.makedirs(md)
     apdep = (mode == '3d')
